@@ -1,5 +1,6 @@
 (* Correspondence cases for C17: model inputs + the implementation's outputs. *)
-From TFL Require Export Harness.Compare Model.RTLStructure.
+From TFL Require Export Harness.Compare Model.RTLStructure Model.Ensembles.
+Open Scope nat_scope.
 
 Fixpoint nat_list_eqb (a b : list nat) : bool :=
   match a, b with
@@ -33,7 +34,31 @@ Inductive case :=
 | CRtl (cfg : rtl_cfg) (p1 p2 : list nat)
        (impl : option structure)                               (* layer._rtl_structure, None = raised *)
        (impl_call : option (list (list nat) * list (list nat))) (* gathered indices per output key, when observed *)
+(* set_random_lattice_ensemble: t1[f] = value of the f-th np.random.choice(non_full_indices),
+   t2[k] = value of np.random.choice(..., size, replace=False) for lattice k (as feature indices) *)
+| CRandom (n num rank : nat) (t1 : list nat) (t2 : list (list nat)) (impl : option (list (list nat)))
+(* construct_prefitting_model_config: perm = the shuffle of the pair list; impl lattices as sorted sets *)
+| CCover (n rank : nat) (perm : list nat) (impl : option (list (list nat)))
+(* _get_final_crystal_lattices with stubbed prefitting scores *)
+| CCrystals (c : crystal_cfg) (impl : option (list (list nat)))
 .
+
+Fixpoint nat_ins (x : nat) (l : list nat) : list nat :=
+  match l with [] => [x] | y :: r => if x <=? y then x :: l else y :: nat_ins x r end.
+Definition nat_sort (l : list nat) : list nat := fold_right nat_ins [] l.
+
+Definition check_random n num rank t1 t2 impl : bool :=
+  opt_eqb nat_mat_eqb (random_ensemble (fun f _ => nth f t1 0) (fun k _ _ => nth k t2 []) n num rank) impl.
+
+Definition check_cover n rank perm impl : bool :=
+  match impl with
+  | None => match prefitting_cover (fun l => l) n rank with None => true | Some _ => false end
+  | Some ls =>
+      is_perm perm (length (pairs n)) &&
+      opt_eqb nat_mat_eqb (option_map (map nat_sort) (prefitting_cover (apply_perm (0, 0) perm) n rank)) (Some ls)
+  end.
+
+Definition check_crystals c impl : bool := opt_eqb nat_mat_eqb (crystal_lattices c) impl.
 
 Definition check_rtl cfg p1 p2 impl impl_call : bool :=
   let n := length (flatten (c_input cfg)) in
@@ -54,4 +79,7 @@ Definition check_rtl cfg p1 p2 impl impl_call : bool :=
 Definition check (c : case) : bool :=
   match c with
   | CRtl cfg p1 p2 impl impl_call => check_rtl cfg p1 p2 impl impl_call
+  | CRandom n num rank t1 t2 impl => check_random n num rank t1 t2 impl
+  | CCover n rank perm impl => check_cover n rank perm impl
+  | CCrystals c impl => check_crystals c impl
   end.
